@@ -288,7 +288,6 @@ func Verif_C16_snapshot() {
 // down at once. After every event all six domains are compared with the model.
 func Verif_C16_escalation() {
 	resetGlobalProxyState()
-	notifyQuicDcidCacheClearImpl.Store(defaultNotifyQuicDcidCacheClearImpl) // what the package initialiser does
 	start := time.Now()
 	d := c16NewDialer()
 	d.ctx, d.cancel = context.WithCancel(context.Background())
